@@ -32,6 +32,12 @@ pub fn gen_system(rng: &mut Rng, class: &str) -> System {
             with_contradictions(rng, base)
         }
         "malformed" => gen_malformed(rng),
+        "pinned" => gen_pinned_degenerate(rng),
+        "collapsed" => {
+            let b = gen_planted(rng, 10, 1e-2, &SHAPES);
+            let b = if rng.chance(1, 3) { with_priorities(rng, b) } else { b };
+            with_collapsed_guess(rng, b)
+        }
         "disparity" => gen_disparity(rng),
         "conflict" => {
             let b = gen_planted(rng, 8, 1e-2, &SHAPES);
@@ -57,7 +63,7 @@ fn main() {
         .get(4)
         .map(|s| s.split(',').map(|x| x.to_owned()).collect())
         .unwrap_or_else(|| {
-            ["planted", "linear", "prio", "contra", "malformed", "caps", "conflict", "disparity"]
+            ["planted", "linear", "prio", "contra", "malformed", "caps", "conflict", "disparity", "collapsed", "pinned"]
                 .iter()
                 .map(|s| s.to_string())
                 .collect()
